@@ -93,7 +93,9 @@ def decide(pid, prop, tier, seed, results, undecided, t0, load_expect, findings)
         # the obligations of one function stand or fall together (an invariant that is not established is still assumed by everything after
         # it), so a property owns every obligation of the functions that carry one of its clauses, whatever that obligation is tagged with
         fns_of_pid = set(o['fn'] for o in r.obligations.values() if pid in o['tags'] and o['kind'] != 'ensures-strict')
-        mine = {k: o for k, o in r.obligations.items() if pid in o['tags'] or (o['fn'] in fns_of_pid and o['kind'] != 'ensures-strict')}
+        # (a postcondition tagged `only` is exempt: it belongs to the properties it names and to no other - used where a clause states more than
+        # the function's other properties ask for, e.g. the error class of a refusal)
+        mine = {k: o for k, o in r.obligations.items() if pid in o['tags'] or (o['fn'] in fns_of_pid and o['kind'] != 'ensures-strict' and 'only' not in o['tags'])}
         missing = [k for k in expect if k not in r.obligations]
         if missing:
             undec.append((r.name, 'obligations recorded on the pinned tree are no longer generated: %s' % ', '.join(missing[:5])))
